@@ -15,13 +15,21 @@ import (
 	"verifharness/internal/h"
 )
 
-func c15NestedRun(sameExec bool) (innerFirst, outerAfter string, note string) {
+func c15NestedRun(sameExec, innerRejected bool) (innerFirst, outerAfter string, note string) {
 	outer := kmipserver.NewBatchExecutor()
 	inner := outer
 	if !sameExec {
 		inner = kmipserver.NewBatchExecutor()
 	}
 	innerFirst, outerAfter = "<not observed>", "<not observed>"
+	innerVer := kmip.V1_4
+	if innerRejected {
+		// the inner request is refused as a whole (its version is not supported by the inner executor)
+		inner = kmipserver.NewBatchExecutor()
+		inner.SetSupportedProtocolVersions(kmip.V1_4)
+		innerVer = kmip.V1_2
+		innerFirst = ""
+	}
 	mk := func(ids ...string) *kmip.RequestMessage {
 		m := &kmip.RequestMessage{Header: kmip.RequestHeader{ProtocolVersion: kmip.V1_4, BatchCount: int32(len(ids))}}
 		for _, id := range ids {
@@ -35,7 +43,9 @@ func c15NestedRun(sameExec bool) (innerFirst, outerAfter string, note string) {
 		case "outer-1":
 			kmipserver.SetIdPlaceholder(ctx, "front-id")
 			// a request of its own, with the context this handler was given
-			_ = inner.HandleRequest(ctx, mk("inner-1", "inner-2"))
+			im := mk("inner-1", "inner-2")
+			im.Header.ProtocolVersion = innerVer
+			_ = inner.HandleRequest(ctx, im)
 		case "outer-2":
 			outerAfter = kmipserver.IdPlaceholder(ctx)
 		case "inner-1":
@@ -46,7 +56,7 @@ func c15NestedRun(sameExec bool) (innerFirst, outerAfter string, note string) {
 		return &payloads.GetResponsePayload{UniqueIdentifier: id}, nil
 	})
 	outer.Route(kmip.OperationGet, hd)
-	if !sameExec {
+	if !sameExec || innerRejected {
 		inner.Route(kmip.OperationGet, hd)
 	}
 	func() {
@@ -61,11 +71,12 @@ func c15NestedRun(sameExec bool) (innerFirst, outerAfter string, note string) {
 }
 
 func c15Nested(c *h.Ctx) {
-	for _, same := range []bool{true, false} {
-		in1, out2, note := c15NestedRun(same)
-		c.Eval(fmt.Sprintf("nested-request/%v", same), true)
+	for _, variant := range [][2]bool{{true, false}, {false, false}, {false, true}} {
+		same := variant[0]
+		in1, out2, note := c15NestedRun(same, variant[1])
+		c.Eval(fmt.Sprintf("nested-request/%v/%v", same, variant[1]), true)
 		c.Count("kind:nested-request")
-		cj := map[string]any{"kind": "nested-request", "same_executor": same, "inner_first_observes": in1, "outer_later_observes": out2, "note": note}
+		cj := map[string]any{"kind": "nested-request", "same_executor": same, "inner_request_rejected": variant[1], "inner_first_observes": in1, "outer_later_observes": out2, "note": note}
 		if note != "" {
 			c.Fail("C15/nested-request/panic", note, cj)
 			continue
